@@ -64,6 +64,46 @@ def uninferable_type_args(program):
                     mentions(p.bound, n) for n in names if n != p.name)
                 out.append((where + ('|bounded-by-another-parameter' if dep
                                      else '|unconstrained'), d.name, p.name))
+    # generic METHOD calls: the same obligation with the callee's parameter types in the role
+    # of the constructor parameters.  The callee is looked up by name; every declaration of
+    # that name with as many type parameters must agree (overrides do).
+    funcs = {}
+    for node, path, parents in walk.iter_nodes(program):
+        if isinstance(node, ast.FunctionDeclaration) and node.type_parameters:
+            funcs.setdefault(node.name, []).append(node)
+
+    def check_call(call, where):
+        if not isinstance(call, ast.FunctionCall) or not call.type_args or \
+                not call.__dict__.get('_can_infer_type_args'):
+            return
+        cands = [f for f in funcs.get(call.func, ())
+                 if len(f.type_parameters) == len(call.type_args)]
+        if not cands:
+            return
+        for i in range(len(call.type_args)):
+            free = True
+            for f in cands:
+                p = f.type_parameters[i]
+                used = any(mentions(q.param_type, p.name) for q in f.params)
+                dep = any(q is not p and q.bound is not None and mentions(q.bound, p.name)
+                          for q in f.type_parameters) or (
+                              p.bound is not None and any(
+                                  mentions(p.bound, q.name) for q in f.type_parameters
+                                  if q is not p))
+                if used or dep:
+                    free = False
+            if free:
+                out.append((where + '|generic-call|unconstrained', call.func,
+                            cands[0].type_parameters[i].name))
+    for node, path, parents in walk.iter_nodes(program):
+        if isinstance(node, ast.FunctionCall) and isinstance(node.receiver, ast.FunctionCall):
+            check_call(node.receiver, 'receiver-of-call')
+        elif isinstance(node, ast.FieldAccess) and isinstance(node.expr, ast.FunctionCall):
+            check_call(node.expr, 'receiver-of-field-access')
+        elif isinstance(node, ast.VariableDeclaration) and node.var_type is None:
+            check_call(node.expr, 'initialiser-of-untyped-variable')
+        elif isinstance(node, ast.FunctionDeclaration) and node.ret_type is None:
+            check_call(node.body, 'body-of-untyped-function')
     for node, path, parents in walk.iter_nodes(program):
         if isinstance(node, ast.FunctionCall) and isinstance(node.receiver, ast.New):
             check(node.receiver, 'receiver-of-call')
@@ -196,10 +236,12 @@ class C03(PipelineCheck):
             if lang == 'kotlin':
                 for where, cls, tpn in rd['uninferable'][:6]:
                     add('uninferable-type-argument', where,
-                        'round %d: the type arguments of `new %s<..>(..)` are omitted although '
-                        'type parameter %s occurs in no constructor parameter type and the call '
+                        'round %d: the type arguments of `%s %s<..>(..)` are omitted although '
+                        'type parameter %s occurs in no %s parameter type and the call '
                         'is the %s (no expected type): no compiler can infer it' % (
-                            rd['index'] + 1, cls, tpn, where.split('|')[0].replace('-', ' ')))
+                            rd['index'] + 1, 'call of' if 'generic-call' in where else 'new',
+                            cls, tpn, 'function' if 'generic-call' in where else 'constructor',
+                            where.split('|')[0].replace('-', ' ')))
             if rd['uninferable']:
                 probes['uninferable_seen_any_language'] = 1
             obl['well-typed-under-inference'] = obl.get('well-typed-under-inference', 0) + \
